@@ -47,8 +47,14 @@ pub enum Case {
     },
     /// enumerated family: payloads number [from, to) of `family`
     Enum { family: u8, from: u64, to: u64 },
-    /// multi-fragment request with explicit fragment sequence ids
-    Fragments { sizes: Vec<usize>, seqs: Vec<u8> },
+    /// multi-fragment request with explicit fragment sequence ids; `window` = read size used inside
+    /// small windows around every fragment header (0 = plain 4 MiB reads)
+    Fragments {
+        sizes: Vec<usize>,
+        seqs: Vec<u8>,
+        #[serde(default)]
+        window: usize,
+    },
 }
 
 pub const ALPHA12: [u8; 12] = [0x00, 0x01, 0x02, 0x03, 0x04, 0x0e, 0x16, 0x17, 0x18, 0x19, 0xff, 0x05];
@@ -315,7 +321,7 @@ impl Prop for C20 {
         "C20"
     }
     fn rule(&self) -> String {
-        "cases = (1) enumerated, exhaustive: every packet payload of length 0-4 over a 12-symbol alphabet (all command bytes, 0x00, 0xff, an unknown command) after a valid handshake and as the handshake response; every raw (unframed) stream of length <= 5 over a 6-symbol alphabet after the handshake and from the start; every COM_STMT_EXECUTE parameter-block body of length 0-4 over an 8-symbol alphabet for statements declaring 0, 1, 2 and 9 parameters; every COM_QUERY consisting of a built-in prefix (`USE `, `use `, `SELECT @@`, `USE`) and a tail of length 0-4 over {back-quote, ';', blank, 'a', tab, '@', a broken UTF-8 lead byte}; (2) generated: grammar-aware mutations of valid conversations (truncate / extend / delete / insert at any offset of any command or of the handshake response, set bytes to boundary values, flip bits, replace the command byte, declared-vs-sent parameter count mismatches, unknown type codes, executes without bound types, every request sequence id 0-255, header length fields larger or smaller than the payload) and random byte streams, under 1-byte to whole-stream read chunkings; (3) enumerated multi-fragment (>= 2^24-1 byte) requests with in-order, out-of-order, repeated and wrapping fragment sequence ids. Oracle: run_on returns Ok or Err, never panics, never keeps reading after end of stream (read budget), and everything it wrote is a sequence of well-formed packets. Known panic sites are matched by (file, source line text, message) signature and reported as KNOWN-FINDING; any other signature is a violation. Non-trivial = the stream differs from every valid conversation (all enumerated and mutated cases) and is at least 1 byte long.".into()
+        "cases = (1) enumerated, exhaustive: every packet payload of length 0-4 over a 12-symbol alphabet (all command bytes, 0x00, 0xff, an unknown command) after a valid handshake and as the handshake response; every raw (unframed) stream of length <= 5 over a 6-symbol alphabet after the handshake and from the start; every COM_STMT_EXECUTE parameter-block body of length 0-4 over an 8-symbol alphabet for statements declaring 0, 1, 2 and 9 parameters; every COM_QUERY consisting of a built-in prefix (`USE `, `use `, `SELECT @@`, `USE`) and a tail of length 0-4 over {back-quote, ';', blank, 'a', tab, '@', a broken UTF-8 lead byte}; (2) generated: grammar-aware mutations of valid conversations (truncate / extend / delete / insert at any offset of any command or of the handshake response, set bytes to boundary values, flip bits, replace the command byte, declared-vs-sent parameter count mismatches, unknown type codes, executes without bound types, every request sequence id 0-255, header length fields larger or smaller than the payload) and random byte streams, under 1-byte to whole-stream read chunkings; (3) enumerated multi-fragment (>= 2^24-1 byte) requests with in-order, out-of-order, repeated and wrapping fragment sequence ids, each under plain 4 MiB reads and under reads that end 1-3 bytes into every fragment header. Oracle: run_on returns Ok or Err, never panics, never keeps reading after end of stream (read budget), and everything it wrote is a sequence of well-formed packets. Known panic sites are matched by (file, source line text, message) signature and reported as KNOWN-FINDING; any other signature is a violation. Non-trivial = the stream differs from every valid conversation (all enumerated and mutated cases) and is at least 1 byte long.".into()
     }
     fn exhaustive_note(&self, _tier: Tier) -> Option<String> {
         Some("payloads of length <= 4 over 12 symbols (as command and as handshake), raw streams of length <= 5 over 6 symbols (after and instead of the handshake), execute parameter-block bodies of length <= 4 over 8 symbols for 0/1/2/9 declared parameters, built-in query prefixes with every tail of length <= 4 over 7 symbols".into())
@@ -410,7 +416,12 @@ impl Prop for C20 {
         }
         // fragment sequence ids
         let u = MAX_PAYLOAD;
-        let mut frag = |sizes: Vec<usize>, seqs: Vec<u8>| v.push(Case::Fragments { sizes, seqs });
+        let mut frag = |sizes: Vec<usize>, seqs: Vec<u8>| {
+            v.push(Case::Fragments { sizes: sizes.clone(), seqs: seqs.clone(), window: 0 });
+            // the same with reads that end 1, 2 or 3 bytes into each fragment header
+            let w = 1 + (sizes.len() + seqs[0] as usize) % 3;
+            v.push(Case::Fragments { sizes, seqs, window: w });
+        };
         frag(vec![u, 10], vec![0, 1]);
         frag(vec![u, 10], vec![0, 0]);
         frag(vec![u, 10], vec![5, 3]);
@@ -461,7 +472,7 @@ impl Prop for C20 {
                 ex.failures.sort_by(|a, b| a.key.cmp(&b.key));
                 ex.failures.dedup_by(|a, b| a.key == b.key);
             }
-            Case::Fragments { sizes, seqs } => {
+            Case::Fragments { sizes, seqs, window } => {
                 ex.nontrivial = true;
                 ex.class("fragment-sequence-ids");
                 let mut bytes = valid_handshake();
@@ -475,7 +486,33 @@ impl Prop for C20 {
                     }
                 }
                 frame_into(&mut bytes, &[COM_PING], 0);
-                let (v, _) = judge_stream(&bytes, &[], 1 << 22);
+                let (v, _) = if *window == 0 {
+                    judge_stream(&bytes, &[], 1 << 22)
+                } else {
+                    // reads of `window` bytes inside +-6-byte windows around every packet header
+                    let (phys, _) = split_packets(&bytes);
+                    let mut sched = Schedule { sizes: vec![*window], hot: vec![], big: 1 << 22, write_accept: vec![] };
+                    let mut p = 0usize;
+                    let mut hdrs = vec![];
+                    // header offsets of the client's packets (the lying fragments are laid out back to back)
+                    while p + 4 <= bytes.len() {
+                        hdrs.push(p);
+                        let len = u32::from_le_bytes([bytes[p], bytes[p + 1], bytes[p + 2], 0]) as usize;
+                        p += 4 + len;
+                    }
+                    let _ = phys;
+                    sched.hot = hdrs.iter().map(|&h| (h.saturating_sub(6), h + 6)).collect();
+                    let mut conv = Conversation::new(vec![], vec![]);
+                    conv.auto_ids = Some(vec![]);
+                    let tr = Transport::new(bytes.clone(), sched, Fault::None);
+                    let o = run_raw(&conv, tr);
+                    let verdict = match &o.result {
+                        RunResult::Panic(p) if p.msg.contains(WEDGE_MARKER) => Some(Verdict { key: "c20-wedge".into(), msg: p.msg.clone() }),
+                        RunResult::Panic(p) => Some(Verdict { key: format!("c20-panic|{}", panic_signature(p)), msg: format!("run_on panicked: {}", o.result.brief()) }),
+                        _ => None,
+                    };
+                    (verdict, o.result)
+                };
                 if let Some(mut v) = v {
                     v.msg = format!("fragments {:?} with sequence ids {:?}: {}", sizes, seqs, v.msg.chars().rev().take(300).collect::<String>().chars().rev().collect::<String>());
                     ex.fail(v.key, v.msg);
